@@ -56,8 +56,8 @@ impl Model {
 
     /// Deep copy of the in-memory model made field by field, without the model codec
     /// (`write_model`/`read_model`): the feature tables, id counters, templates, rewriters and
-    /// user entries are cloned, the raw CRF model goes through rucrf's own codec and the seed
-    /// dictionary through the dictionary codec.
+    /// user entries are cloned, the cached merged model is copied field by field, the raw CRF
+    /// model goes through rucrf's own codec and the seed dictionary through the dictionary codec.
     pub fn verif_twin(&self) -> Result<Model> {
         let c = &self.data.config;
         let mut dict_bytes = vec![];
@@ -74,7 +74,13 @@ impl Model {
             bincode::decode_from_slice(&self.verif_raw_model_bytes(), common::bincode_config())?;
         Ok(Model {
             data: crate::trainer::model::ModelData { config, raw_model },
-            merged_model: None,
+            // the cached merged model is carried over as it is (stale or not)
+            merged_model: self.merged_model.as_ref().map(|m| rucrf::MergedModel {
+                feature_sets: m.feature_sets.clone(),
+                matrix: m.matrix.clone(),
+                left_conn_to_right_feats: m.left_conn_to_right_feats.clone(),
+                right_conn_to_left_feats: m.right_conn_to_left_feats.clone(),
+            }),
             user_entries: self.user_entries.clone(),
         })
     }
